@@ -10,7 +10,8 @@ RULE = ("seeded (file tree, runtime tree) pairs as in C09 plus a second untarget
         "append-over (whole root or targeted) is first run to count its h5py mutations (create group / dataset / attribute, move, "
         "link, delete), then re-run on a fresh copy of the file once for EVERY mutation index k with that mutation made to raise; "
         "and three naturally failing whole-root appends per pair (a root metadata entry with an unsupported value behind entries the file already has; the same deep in the tree; a new child named like a dataset of its parent's body); after each failing save: is every pre-existing node still at its path, individually readable and equal to before, are "
-        "other trees untouched, are scratch groups left; non-trivial = >= 10 failure points; distinct by recipe hash")
+        "other trees untouched, are scratch groups left; trees hold Custom nodes with node-valued attributes; natural failures incl. a "
+        "new child named like an object of its parent's body in plain append and in append-over; non-trivial = >= 10 failure points; distinct by recipe hash")
 TIME_BUDGET = {"quick": 400, "thorough": 2400}
 
 
